@@ -1,6 +1,6 @@
 from abc import ABC, abstractmethod
 from typing import Union
-from numpy import ndarray, sqrt, eye, isscalar
+from numpy import array, ndarray, sqrt, eye, isscalar
 from numpy.random import Generator
 from numpy.linalg import cholesky
 from scipy.linalg import solve_triangular
@@ -60,8 +60,11 @@ class MatrixMass(ParticleMass):
 def get_particle_mass(
     inverse_mass: Union[float, ndarray], n_parameters: int
 ) -> ParticleMass:
+    # the mass is held as a plain float / a contiguous float64 array of its own, which is
+    # what save() writes and load() restores: a numpy scalar, an integer array or a strided
+    # view of a larger array would make a chain compute differently from its reloaded copy
     if isscalar(inverse_mass):
-        return ScalarMass(inverse_mass, n_parameters)
+        return ScalarMass(float(inverse_mass), n_parameters)
 
     if not isinstance(inverse_mass, ndarray):
         raise TypeError(
@@ -74,6 +77,7 @@ def get_particle_mass(
             """
         )
 
+    inverse_mass = array(inverse_mass, dtype=float, order="C")
     if inverse_mass.ndim == 1:
         return VectorMass(inverse_mass, n_parameters)
     else:
